@@ -81,6 +81,8 @@ type Interp struct {
 	reached   map[string]bool
 	observes  []Observation
 	clockLast *term.Term
+	clockFirst *term.Term // first reading of the path
+	clockSpan  uint64     // when > 0: every reading is at most this many seconds after the first
 	clockHalf *term.Term // 0/1 half-second part of the last ClockFine reading, or nil
 	uuidSeq   int // per-path counter: uuid.New() returns distinct, deterministic values
 	usedIntrinsics map[string]bool
